@@ -14,6 +14,7 @@ import EinoV.Expected.C03
 import EinoV.Proofs.C03Engine
 import EinoV.Proofs.C02Confluence
 import EinoV.Proofs.C02CompileWF
+import EinoV.Proofs.C02CompileWWF
 import EinoV.Proofs.C02EagerConfluence
 import EinoV.Model.C03Loop
 import EinoV.Proofs.C03Loop
@@ -617,6 +618,21 @@ theorem compiled_graph_result_schedule_independent {V : Type} (ops : ValOps V) (
     (hB : (runS ops (compile slack g) sB x).result = .ok vB) : vA = vB :=
   have h := compile_wf slack g w
   run_result_sched_independent ops hm _ h.1 h.2.1 h.2.2 sA sB hfA hfB x vA vB hA hB
+
+open EinoV.Engine EinoV.Engine.DagRun in
+/-- **compiled_workflow_result_completion_order_independent.** The hypotheses of
+    `workflow_result_completion_order_independent` discharged (`Proofs/C02CompileWWF.lean`): for
+    *every* well-formed acyclic Workflow definition, a permutation-invariant merge and every input,
+    two eager runs under two arbitrary completion orders that both return a value return the same
+    value — and it is the value of a batch run under any fair schedule. -/
+theorem compiled_workflow_result_completion_order_independent {V : Type} (ops : ValOps V) (hm : MergePerm ops)
+    (w : WorkflowDef V) (h : WorkflowDefWF w) (pA pB : Pick V) (sched : Sched V) (hf : sched.Fair) (x vA vB vS : V)
+    (hA : (runEager ops (compileW ops w) pA x).result = .ok vA)
+    (hB : (runEager ops (compileW ops w) pB x).result = .ok vB)
+    (hS : (runS ops (compileW ops w) sched x).result = .ok vS) : vA = vB ∧ vA = vS :=
+  have c := compileW_wf ops w h
+  ⟨runEager_result_pick_independent ops hm _ c.1 c.2.1 c.2.2 pA pB x vA vB hA hB,
+   runEager_agrees_with_batch ops hm _ c.1 c.2.1 c.2.2 pA sched hf x vA vS hA hS⟩
 
 open EinoV.Engine EinoV.Engine.DagRun in
 /-- **dag_wf3_check_sound.** The executable check of `DagWF3` (evaluated by the C02 oracle on every
